@@ -1,7 +1,9 @@
 """C09 — RMC framing: correspondence of RMCMessage.encode/decode with the Lean model,
 reference-framing comparison, and the property oracle on the real code."""
 import struct
+import logging
 from nintendo.nex import rmc, settings as nexsettings
+import c09_objects, c09_logging
 
 LEVEL = "proof"
 
@@ -32,6 +34,20 @@ def real_dec(data):
     except Exception as e:
         return "err " + exc_name(e)
     return "ok %d %d %s %d %d %s" % (m.mode, m.protocol, "none" if m.method is None else str(m.method), m.call_id, m.error, hx(m.body))
+
+def enc_line(fields):
+    mode, p, meth, c, err, body = fields
+    return "enc %d %d %s %d %d %s" % (mode, p, "none" if meth is None else meth, c, err, hx(body))
+
+def recompute(line, m):
+    """execute a correspondence line on the real code again (used for the logging axis)"""
+    if line.startswith("dec "):
+        return real_dec(bytes.fromhex(line[4:]) if line[4:] != "-" else b"")
+    if m[0] in ("enc", "spec"):
+        return real_enc(*spec_fields(m[1]))
+    op, mode, p, meth, c, err, body = line.split(" ")
+    assert op == "enc"
+    return real_enc(int(mode), int(p), None if meth == "none" else int(meth), int(c), int(err), bytes.fromhex(body) if body != "-" else b"")
 
 PROTO_EDGE = [0, 1, 0x7D, 0x7E, 0x7F, 0x80, 0x81, 0xFE, 0xFF, 0x100, 0x7FFF, 0x8000, 0xFFFE, 0xFFFF]
 U32_EDGE = [0, 1, 0x7FFF, 0x8000, 0xFFFF, 0x10000, 0x7FFFFFFF, 0x80000000, 0xFFFFFFFF]
@@ -90,7 +106,14 @@ def run(ctx):
     ctx.rule = ("messages generated over protocol/method/call-id/error boundaries and random values, bodies 0..64KiB; "
                 "each is encoded by the real RMCMessage and by the Lean model (enc), compared with the Lean reference framing (spec), "
                 "decoded by both (dec); plus all truncations and length-prefix perturbations of sampled valid messages and random byte strings. "
-                "distinct non-trivial = distinct (op,input) lines whose model result is not a trivial rejection of random bytes")
+                "ONE message object over time (built by request()/response()/error(), encoded, a single field assigned -- each of the six "
+                "alone for each form, the life of `.error` alone, random histories, two live objects differing in one field --, encoded again): "
+                "every encoding vs the model's enc of the values held at that moment, and decoded again; "
+                "the logging configuration of the process as an axis: a stratified sample of all of the above (all bodies of 0..24 bytes, error "
+                "responses, truncations, perturbations, object histories, round trips) executed again under each configuration of "
+                "harness/c09_logging.py (root / `nintendo` / `nintendo.nex.rmc` / every library logger at DEBUG or INFO with a formatting handler, "
+                "logging.disable, DEBUG without a handler), results must be the model's. "
+                "distinct non-trivial = distinct (configuration, op, input) lines whose model result is not a trivial rejection of random bytes")
     specs = []
     # exhaustive protocol axis for a fixed small body (all three forms)
     protos = range(0, 0x10000) if not quick else list(range(0, 0x200)) + list(range(0xFF00, 0x10000)) + [rng.randint(0x200, 0xFEFF) for _ in range(512)]
@@ -105,6 +128,17 @@ def run(ctx):
     for form, p in (("req", 10), ("req", 0x7F), ("ok", 10), ("ok", 0x1234)):
         for n in list(range(65519, 65537)) + [70000, 131072]:
             specs.append((form, p, 0xFFFFFFFF if n % 2 else 7, 0x7FFF if form == "ok" else 3, bytes([n & 0xFF]) * n))
+    # small messages, exhaustively: every body size 0..24 for requests and success responses with a short, the last short,
+    # the escape and an extended protocol id, and error responses (framed payloads of 6..40 bytes)
+    small_specs = []
+    for p in (10, 0x7E, 0x7F, 0x1234):
+        for n in range(25):
+            small_specs.append(("req", p, 1 + n, n, bytes(range(n))))
+            small_specs.append(("ok", p, 0xFFFFFFFF - n, 0x7FFF - n, bytes(range(n))))
+        for code in (0x80000000, 0x80010002, 0x8001000B, 0xFFFFFFFF):
+            small_specs.append(("err", p, 3, code, b""))
+    specs += small_specs
+    small_set = set(small_specs)
     lines, reals, meta = [], [], []
     def add(line, real, m):
         lines.append(line); reals.append(real); meta.append(m)
@@ -158,6 +192,18 @@ def run(ctx):
             d = rng.randbytes(rng.randint(0, 24))
         add("dec " + hx(d), real_dec(d), ("mut", d))
 
+    # 5. ONE message object over time: encoded, a single field assigned, encoded again (c09_objects); every encoding is
+    #    compared with the model's `enc` of the values the object holds at that moment
+    scenarios = c09_objects.gen_scenarios(rng, gen_body, 150 if quick else 3000)
+    scen_lines = []
+    for si, (tag, ops) in enumerate(scenarios):
+        obs = c09_objects.play(S, ops, exc_name)
+        idx = []
+        for j, (oi, fields, r) in enumerate(obs):
+            idx.append(len(lines))
+            add(enc_line(fields), r, ("obj", (si, j, fields)))
+        scen_lines.append(idx)
+
     outs = drv.batch(lines)
     diffs = []
     for line, real, model, m in zip(lines, reals, outs, meta):
@@ -168,46 +214,168 @@ def run(ctx):
             diffs.append((line, real, model, m))
     ctx.traces_validated = len(lines)
 
-    # property oracle on the real code
-    fails = 0
-    for sp in specs:
-        why = oracle_roundtrip(sp)
-        if why:
-            form, p, c, m, body = sp
-            fails += 1
-            key = "rmc-roundtrip:protocol=0x7F" if p == 0x7F else "rmc-roundtrip:%s:p=%#x" % (form, p)
-            ctx.violation(key, "RMC round trip fails on the real code: " + why,
-                          {"form": form, "protocol": p, "call_id": c, "method_or_code": m, "body": body.hex(), "why": why,
-                           "how": "rmc.RMCMessage.parse(S, RMCMessage.<form>(...).encode())"})
-            if fails > 20: break
-    # strictness oracle: truncations / perturbations / appended bytes must be rejected by the real code
-    for line, real, m in zip(lines, reals, meta):
-        if m[0] in ("trunc", "perturb", "append") and not real.startswith("err"):
-            ctx.violation("rmc-strict:%s" % m[0], "real decoder accepted a %s message: %s -> %s" % (m[0], line[:80], real[:80]),
-                          {"op": line, "real": real, "kind": m[0]})
-        if m[0] == "inner-append" and real.startswith("ok 1 ") and " none " in real:
-            ctx.violation("rmc-strict:error-trailing", "real decoder accepted an error response with trailing bytes",
-                          {"op": line, "real": real})
-        if m[0] == "spec" and real != outs[lines.index(line)] if False else False:
-            pass
-    # reference framing: real bytes vs Lean spec
-    for line, real, model, m in diffs:
-        if m[0] == "spec":
+    hist_reported = set()
+    def last_set(ops, j):
+        """which field was assigned last before the j-th encoding of a history (the differing field, for two objects)"""
+        n, field = -1, "none"
+        for op in ops:
+            if op[0] == "set": field = "field=" + op[2]
+            elif op[0] == "raw": field = "two-objects"
+            elif op[0] == "enc":
+                n += 1
+                if n == j: break
+        return field
+
+    def judge(line, real, model, m, cfg=None):
+        """the property's oracles for one executed line; cfg = the logging configuration it ran under (None = untouched)"""
+        sfx = ":logging" if cfg else ""         # the configuration is named in the text and in the replay; one line per kind of failure
+        under = (" with logging configured as '%s' (harness/c09_logging.py)" % cfg) if cfg else ""
+        rp = {"logging_config": cfg} if cfg else {}
+        kind = m[0]
+        # strictness: truncations / perturbations / appended bytes must be rejected by the real code
+        if kind in ("trunc", "perturb", "append") and not real.startswith("err"):
+            ctx.violation("rmc-strict:%s%s" % (kind, sfx), "real decoder accepted a %s message%s: %s -> %s" % (kind, under, line[:80], real[:80]),
+                          dict(rp, op=line, real=real, kind=kind))
+        if kind == "inner-append" and real.startswith("ok 1 ") and " none " in real:
+            ctx.violation("rmc-strict:error-trailing" + sfx, "real decoder accepted an error response with trailing bytes" + under,
+                          dict(rp, op=line, real=real))
+        if real == model:
+            return
+        # reference framing: real bytes vs Lean spec
+        if kind == "spec":
             sp = m[1]
-            ctx.violation("rmc-reference:%s:p=%#x" % (sp[0], sp[1]) if sp[1] != 0x7F else "rmc-roundtrip:protocol=0x7F",
-                          "bytes emitted by the real encoder differ from the reference framing",
-                          {"spec": [sp[0], sp[1], sp[2], sp[3], sp[4].hex()], "real": real, "reference": model})
-        elif m[0] == "encraw" and model.startswith("ok") and real.startswith("ok"):
+            ctx.violation(("rmc-reference:%s:p=%#x" % (sp[0], sp[1]) if sp[1] != 0x7F else "rmc-roundtrip:protocol=0x7F") + sfx,
+                          "bytes emitted by the real encoder differ from the reference framing" + under,
+                          dict(rp, spec=[sp[0], sp[1], sp[2], sp[3], sp[4].hex()], real=real[:4000], reference=model[:4000]))
+        elif kind == "encraw" and model.startswith("ok") and real.startswith("ok"):
             # a message object with in-range fields (e.g. a response object that carries an error code AND a body, as a server
             # produces when a handler fails after writing part of its output): its bytes are fixed by the reference framing too
             mode, p_, meth, c_, err = m[1]
-            ctx.violation("rmc-reference:object:mode=%d:error=%s" % (mode, "set" if err != -1 else "none"),
-                          "bytes emitted by the real encoder for a message object (mode %d, protocol %#x, method %r, call id %d, error %#x) differ from the reference framing" % (mode, p_, meth, c_, err & 0xFFFFFFFF),
-                          {"object": [mode, p_, meth, c_, err], "op": line[:4000], "real": real[:4000], "reference": model[:4000]})
+            ctx.violation("rmc-reference:object:mode=%d:error=%s%s" % (mode, "set" if err != -1 else "none", sfx),
+                          "bytes emitted by the real encoder for a message object (mode %d, protocol %#x, method %r, call id %d, error %#x) differ from the reference framing%s" % (mode, p_, meth, c_, err & 0xFFFFFFFF, under),
+                          dict(rp, object=[mode, p_, meth, c_, err], op=line[:4000], real=real[:4000], reference=model[:4000]))
+        elif kind == "dec" and cfg and model.startswith("ok"):
+            # (under the untouched configuration this is the round-trip oracle's business, below)
+            ctx.violation("rmc-roundtrip:%s%s" % (m[1][0], sfx), "a valid %s message is not decoded to its fields%s: %s -> %s (reference: %s)" % (m[1][0], under, line[:80], real[:80], model[:80]),
+                          dict(rp, op=line[:4000], real=real[:4000], model=model[:4000]))
+        elif kind == "obj" and model.startswith("ok"):
+            si, j, fields = m[1]
+            tag, ops = scenarios[si]
+            fresh = real_enc(*fields)
+            wf = c09_objects.well_formed(fields)
+            if fresh == model:
+                hist_reported.add((cfg, si, j))
+                ctx.violation("rmc-object-history:%s%s" % (last_set(ops, j), sfx),
+                              "the bytes of a message object do not follow its current fields%s: after the history below, encode() #%d of the object "
+                              "(now %s mode=%d protocol=%#x method=%r call_id=%d error=%d body=%d bytes) gives %s; the reference framing of these fields "
+                              "(and a fresh object with the same fields) is %s" % (under, j + 1, wf[0] if wf else "object", fields[0], fields[1], fields[2], fields[3], fields[4], len(fields[5]), real[:90], model[:90]),
+                              dict(rp, scenario=tag, ops=[list(o) for o in ops], encode_index=j, fields=list(fields[:5]) + [fields[5].hex()],
+                                   real=real[:4000], reference=model[:4000], fresh_object=fresh[:4000],
+                                   how="c09_objects.play(S, ops, exc_name): ops are ('new', form, protocol, call_id, method_or_code, bodyhex) | ('set', obj, field, value) | ('enc', obj)"))
+            else:
+                ctx.violation("rmc-reference:object:mode=%d:error=%s%s" % (fields[0], "set" if fields[4] != -1 else "none", sfx),
+                              "bytes emitted by the real encoder for a message object (mode %d, protocol %#x, method %r, call id %d, error %#x) differ from the reference framing%s" % (fields[0], fields[1], fields[2], fields[3], fields[4] & 0xFFFFFFFF, under),
+                              dict(rp, object=list(fields[:5]), op=line[:4000], real=real[:4000], reference=model[:4000]))
+
+    def obj_roundtrip(si, j, fields, real, cfg=None):
+        """property on the real code: what the object gives, decoded again, is the message the object currently is"""
+        wf = c09_objects.well_formed(fields)
+        if not wf or not real.startswith("ok ") or (cfg, si, j) in hist_reported: return
+        got = real_dec(bytes.fromhex(real[3:]))
+        mode, p, meth, c, err, body = wf[1]
+        want = "ok %d %d %s %d %d %s" % (mode, p, "none" if meth is None else meth, c, err, hx(body))
+        if got != want:
+            tag, ops = scenarios[si]
+            ctx.violation("rmc-object-roundtrip:%s" % last_set(ops, j) if not cfg else "rmc-object-roundtrip:logging",
+                          "encode() #%d of a message object, decoded again, is not the message the object is at that moment%s: want %s got %s" % (j + 1, (" with logging configured as '%s' (harness/c09_logging.py)" % cfg) if cfg else "", want[:90], got[:90]),
+                          {"scenario": tag, "ops": [list(o) for o in ops], "encode_index": j, "want": want[:4000], "got": got[:4000], "logging_config": cfg})
+
+    for line, real, model, m in zip(lines, reals, outs, meta):
+        judge(line, real, model, m)
+        if m[0] == "obj":
+            obj_roundtrip(m[1][0], m[1][1], m[1][2], real)
+
+    # property oracle on the real code
+    def roundtrip_all(sps, cfg=None):
+        fails = 0
+        for sp in sps:
+            why = oracle_roundtrip(sp)
+            if why:
+                form, p, c, m, body = sp
+                fails += 1
+                key = "rmc-roundtrip:protocol=0x7F" if p == 0x7F else "rmc-roundtrip:%s:p=%#x" % (form, p)
+                if cfg: key = "rmc-roundtrip:%s:logging" % form
+                ctx.violation(key, "RMC round trip fails on the real code%s: %s" % ((" with logging configured as '%s' (harness/c09_logging.py)" % cfg) if cfg else "", why),
+                              {"form": form, "protocol": p, "call_id": c, "method_or_code": m, "body": body.hex(), "why": why, "logging_config": cfg,
+                               "how": "rmc.RMCMessage.parse(S, RMCMessage.<form>(...).encode())" + (" inside `with c09_logging.applied(%r):`" % cfg if cfg else "")})
+                if fails > 20: break
+    roundtrip_all(specs)
+
+    # 6. the process's logging configuration as an axis: a sample of every family above (every kind of line x every outcome
+    #    of the model, all the small messages, object histories, round trips) is executed again on the real code under each
+    #    configuration; the results must be the ones of the untouched configuration, i.e. the model's
+    strata = {}
+    for i, (line, model, m) in enumerate(zip(lines, outs, meta)):
+        if m[0] == "obj" or len(line) > 3000: continue
+        strata.setdefault((m[0], model.split(" ")[0], model.split(" ")[1] if model.startswith("err") else len(line) // 16 if len(line) < 160 else -1), []).append(i)
+    per = 12 if quick else 60
+    sample = []
+    for k in sorted(strata, key=repr):
+        ix = strata[k]
+        n = per * {"trunc": 12, "perturb": 4, "append": 3, "inner-append": 3}.get(k[0], 1)
+        sample += ix if len(ix) <= n else rng.sample(ix, n)
+    small_ix = [i for i, m in enumerate(meta) if m[0] in ("enc", "spec", "dec") and m[1] in small_set]
+    sample = sorted(set(sample) | set(small_ix))
+    big_ix = [i for i, m in enumerate(meta) if m[0] in ("enc", "dec") and len(lines[i]) > 100000][:4]
+    sample += big_ix
+    scen_sample = [si for si, (tag, ops) in enumerate(scenarios) if not tag.startswith("random")] + \
+                  [si for si, (tag, ops) in enumerate(scenarios) if tag.startswith("random")][: (20 if quick else 300)]
+    rt_sample = small_specs + rng.sample(specs, 200 if quick else 3000)
+    cfgs = c09_logging.QUICK_CONFIGS if quick else sorted(c09_logging.CONFIGS)
+    log_lines = log_diffs = log_records = log_format_errors = 0
+    enabled = {}
+    for cfg in cfgs:
+        with c09_logging.applied(cfg) as sink:
+            lg = getattr(rmc, "logger", None) or logging.getLogger(rmc.__name__)
+            enabled[cfg] = [lvl for lvl in ("DEBUG", "INFO", "WARNING", "ERROR") if lg.isEnabledFor(getattr(logging, lvl))][:1]
+            redo = [(i, recompute(lines[i], meta[i])) for i in sample]
+            redo_scen = [(si, c09_objects.play(S, scenarios[si][1], exc_name)) for si in scen_sample]
+            for i, real in redo:
+                ctx.case(key=(cfg, lines[i] if len(lines[i]) < 40 else hash(lines[i])), tag="logging=%s:%s" % (cfg, meta[i][0]))
+                log_lines += 1
+                if real != outs[i]:
+                    log_diffs += 1
+                    diffs.append((lines[i], real, outs[i], meta[i] + (cfg,)))
+                judge(lines[i], real, outs[i], meta[i], cfg)
+            for si, obs in redo_scen:
+                for j, (oi, fields, real) in enumerate(obs):
+                    i = scen_lines[si][j]
+                    ctx.case(key=(cfg, "obj", si, j), tag="logging=%s:obj" % cfg)
+                    log_lines += 1
+                    if real != outs[i]:
+                        log_diffs += 1
+                        diffs.append((lines[i], real, outs[i], meta[i] + (cfg,)))
+                    judge(lines[i], real, outs[i], meta[i], cfg)
+                    obj_roundtrip(si, j, fields, real, cfg)
+            roundtrip_all(rt_sample, cfg)
+        log_records += sink.records
+        log_format_errors += sink.format_errors
+    ctx.traces_validated = len(lines) + log_lines
+
     if diffs and not ctx.violations and not ctx.known_hits:
         line, real, model, m = diffs[0]
-        ctx.corr_break("rmc-model-correspondence", "real RMCMessage and Lean model disagree on %d of %d lines" % (len(diffs), len(lines)),
-                       {"first_op": line, "real": real, "model": model, "theorems_no_longer_tied": ["Nx.C09.rmc_roundtrip", "Nx.C09.rmc_encode_is_reference"]})
+        ctx.corr_break("rmc-model-correspondence", "real RMCMessage and Lean model disagree on %d of %d lines" % (len(diffs), len(lines) + log_lines),
+                       {"first_op": line[:4000], "real": real[:4000], "model": model[:4000], "logging_config": m[2] if len(m) > 2 else None,
+                        "theorems_no_longer_tied": ["Nx.C09.rmc_roundtrip", "Nx.C09.rmc_encode_is_reference"]})
     ctx.extra["correspondence_lines"] = len(lines)
     ctx.extra["correspondence_diffs"] = len(diffs)
     ctx.extra["protocol_axis_exhaustive"] = not quick
+    ctx.extra["object_histories"] = len(scenarios)
+    ctx.extra["object_history_encodings"] = sum(len(x) for x in scen_lines)
+    ctx.extra["logging_configurations"] = list(cfgs)
+    ctx.extra["logging_lines_per_configuration"] = len(sample) + sum(len(scen_lines[si]) for si in scen_sample)
+    ctx.extra["logging_lines"] = log_lines
+    ctx.extra["logging_lowest_level_enabled_for_rmc_logger"] = enabled
+    ctx.extra["logging_diffs"] = log_diffs
+    ctx.extra["logging_records_formatted"] = log_records
+    ctx.extra["logging_format_errors"] = log_format_errors
